@@ -13,20 +13,28 @@ The codec is generic over a *schema*: `EncField` rows (what `into_bytes` writes,
 rows (what `from_bytes` reads, in its order).  The four real schemas are data (end of this file).
 The value of PID_TYPE_INFORMATION (XCDR2 `TypeInformation`) is an opaque byte string: its inner decoding belongs
 to the XCDR engine and is assumed to accept what the encoder produced.
+The decoder is the one of repository main + fixes/D-plist-1.patch (`Cfg.fixed`); earlier behaviours (D11, D13,
+D-plist-1) are selected by `Cfg` and kept for regression witnesses and for checking an unpatched tree.
 Import-free.  Bytes are `Nat`s (< 256 for everything an encoder produces or the driver parses).
 -/
 namespace DustVerif.Plist
 
 abbrev Bytes := List Nat
 
-/-- which repair patches the modelled tree carries (fixes/D11.patch, fixes/D13.patch) -/
+/-- which repairs the modelled tree carries: D11 (zero-length string), D13 (`with_capacity`), both on main;
+    `fixHdr` = fixes/D-plist-1.patch (the parameter iterator skips the encapsulation header) -/
 structure Cfg where
   fixD11 : Bool
   fixD13 : Bool
+  fixHdr : Bool
 deriving DecidableEq, Repr
 
-def Cfg.asIs : Cfg := { fixD11 := false, fixD13 := false }
-def Cfg.fixed : Cfg := { fixD11 := true, fixD13 := true }
+/-- the tree as it was before any repair -/
+def Cfg.asIs : Cfg := { fixD11 := false, fixD13 := false, fixHdr := false }
+/-- repository main (D11 and D13 repaired), without fixes/D-plist-1.patch: the iterator still starts at offset 0 -/
+def Cfg.main : Cfg := { fixD11 := true, fixD13 := true, fixHdr := false }
+/-- main + fixes/D-plist-1.patch: the delivered configuration -/
+def Cfg.fixed : Cfg := { fixD11 := true, fixD13 := true, fixHdr := true }
 
 /-- a single allocation request above this size is an ALLOC-LIMIT outcome (harness/src/bin/plist.rs) -/
 def allocLimit : Nat := 268435456
@@ -67,8 +75,15 @@ def rd32 (e : End) (a b c d : Nat) : Nat :=
   | .le => a + 256 * b + 65536 * c + 16777216 * d
   | .be => 16777216 * a + 65536 * b + 256 * c + d
 
-def le16 (n : Nat) : Bytes := [n % 256, n / 256 % 256]
-def le32 (n : Nat) : Bytes := [n % 256, n / 256 % 256, n / 65536 % 256, n / 16777216 % 256]
+def enc16 (e : End) (n : Nat) : Bytes :=
+  match e with
+  | .le => [n % 256, n / 256 % 256]
+  | .be => [n / 256 % 256, n % 256]
+
+def enc32 (e : End) (n : Nat) : Bytes :=
+  match e with
+  | .le => [n % 256, n / 256 % 256, n / 65536 % 256, n / 16777216 % 256]
+  | .be => [n / 16777216 % 256, n / 65536 % 256, n / 256 % 256, n % 256]
 
 def toI16 (n : Nat) : Int := if n ≥ 32768 then (n : Int) - 65536 else (n : Int)
 def toI32 (n : Nat) : Int := if n ≥ 2147483648 then (n : Int) - 4294967296 else (n : Int)
@@ -305,45 +320,46 @@ def decMembers (cfg : Cfg) (e : End) : List Prim → Cur → R (List PVal × Cur
     | .panic => .panic
     | .alloc => .alloc
 
-/-! ### encoders (always little-endian; `pos` = offset inside the parameter value.  The real
-    `CdrSerializer::pad` uses the offset in the whole buffer, which is congruent mod 4 because the header and
-    every parameter are multiples of 4 long.) -/
+/-! ### encoders (`pos` = offset inside the parameter value.  The real `CdrSerializer::pad` uses the offset in the
+    whole buffer, which is congruent mod 4 because the header and every parameter are multiples of 4 long.)
+    dust-dds itself always writes little-endian (`e = .le`); the big-endian encoder describes what another
+    implementation may send (RTPS 9.4.2.11 lets every sender choose) and is used in the theorems only. -/
 
 def zeros (n : Nat) : Bytes := List.replicate n 0
 
-def encStr (s : Bytes) (pos : Nat) : Bytes :=
-  zeros (padTo 4 pos) ++ le32 ((s.length + 1) % 4294967296) ++ s ++ [0]
+def encStr (e : End) (s : Bytes) (pos : Nat) : Bytes :=
+  zeros (padTo 4 pos) ++ enc32 e ((s.length + 1) % 4294967296) ++ s ++ [0]
 
-def encStrs : List Bytes → Nat → Bytes
+def encStrs (e : End) : List Bytes → Nat → Bytes
   | [], _ => []
-  | s :: l, pos => encStr s pos ++ encStrs l (pos + (encStr s pos).length)
+  | s :: l, pos => encStr e s pos ++ encStrs e l (pos + (encStr e s pos).length)
 
-def encU16s : List Nat → Nat → Bytes
+def encU16s (e : End) : List Nat → Nat → Bytes
   | [], _ => []
-  | v :: l, pos => zeros (padTo 2 pos) ++ le16 v ++ encU16s l (pos + padTo 2 pos + 2)
+  | v :: l, pos => zeros (padTo 2 pos) ++ enc16 e v ++ encU16s e l (pos + padTo 2 pos + 2)
 
-def encPrim (p : Prim) (v : PVal) (pos : Nat) : Bytes :=
+def encPrim (e : End) (p : Prim) (v : PVal) (pos : Nat) : Bytes :=
   match p, v with
   | .u8, .n x => [x]
-  | .i16, .i x => zeros (padTo 2 pos) ++ le16 (ofI16 x)
-  | .enum16 _, .i x => zeros (padTo 2 pos) ++ le16 (ofI16 x)
-  | .i32, .i x => zeros (padTo 4 pos) ++ le32 (ofI32 x)
-  | .enum32 _, .i x => zeros (padTo 4 pos) ++ le32 (ofI32 x)
-  | .u32, .n x => zeros (padTo 4 pos) ++ le32 x
+  | .i16, .i x => zeros (padTo 2 pos) ++ enc16 e (ofI16 x)
+  | .enum16 _, .i x => zeros (padTo 2 pos) ++ enc16 e (ofI16 x)
+  | .i32, .i x => zeros (padTo 4 pos) ++ enc32 e (ofI32 x)
+  | .enum32 _, .i x => zeros (padTo 4 pos) ++ enc32 e (ofI32 x)
+  | .u32, .n x => zeros (padTo 4 pos) ++ enc32 e x
   | .boolC, .b x => [if x then 1 else 0]
   | .boolX, .b x => [if x then 1 else 0]
   | .arr _, .bs x => x
-  | .strC, .bs s => encStr s pos
-  | .strX, .bs s => encStr s pos
-  | .octets, .bs x => zeros (padTo 4 pos) ++ le32 (x.length % 4294967296) ++ x
+  | .strC, .bs s => encStr e s pos
+  | .strX, .bs s => encStr e s pos
+  | .octets, .bs x => zeros (padTo 4 pos) ++ enc32 e (x.length % 4294967296) ++ x
   | .strs, .ss l =>
-    zeros (padTo 4 pos) ++ le32 (l.length % 4294967296) ++ encStrs l (pos + padTo 4 pos + 4)
+    zeros (padTo 4 pos) ++ enc32 e (l.length % 4294967296) ++ encStrs e l (pos + padTo 4 pos + 4)
   | .u16s, .ns l =>
-    zeros (padTo 4 pos) ++ le32 (l.length % 4294967296) ++ encU16s l (pos + padTo 4 pos + 4)
+    zeros (padTo 4 pos) ++ enc32 e (l.length % 4294967296) ++ encU16s e l (pos + padTo 4 pos + 4)
   | _, _ => []
 
-def encMembers : List Prim → List PVal → Nat → Bytes
-  | p :: ps, v :: vs, pos => encPrim p v pos ++ encMembers ps vs (pos + (encPrim p v pos).length)
+def encMembers (e : End) : List Prim → List PVal → Nat → Bytes
+  | p :: ps, v :: vs, pos => encPrim e p v pos ++ encMembers e ps vs (pos + (encPrim e p v pos).length)
   | _, _, _ => []
 
 /-! ### codecs of whole parameter values -/
@@ -386,7 +402,7 @@ def normPost : Post → List PVal → List PVal
 def sample (c : Codec) (vs : List PVal) : Option (List PVal) :=
   if enumsOk c.members vs then some (normPost c.post vs) else none
 
-def encCodec (c : Codec) (vs : List PVal) : Bytes := encMembers c.members (normPost c.post vs) 0
+def encCodec (e : End) (c : Codec) (vs : List PVal) : Bytes := encMembers e c.members (normPost c.post vs) 0
 
 /-- errors of the two deserializer families as the harness prints them -/
 inductive Err
@@ -429,14 +445,19 @@ abbrev Param := Nat × Bytes
 def pad4 (v : Bytes) : Bytes := v ++ zeros (padTo 4 v.length)
 
 /-- write_cdr_parameter (rtps_data_representation_serialization.rs:34): pid, `length as u16`, padded value -/
-def serParam (p : Param) : Bytes := le16 p.1 ++ le16 ((pad4 p.2).length % 65536) ++ pad4 p.2
+def serParam (e : End) (p : Param) : Bytes := enc16 e p.1 ++ enc16 e ((pad4 p.2).length % 65536) ++ pad4 p.2
 
-def serParams : List Param → Bytes
+def serParams (e : End) : List Param → Bytes
   | [] => []
-  | p :: ps => serParam p ++ serParams ps
+  | p :: ps => serParam e p ++ serParams e ps
 
-def plHeader : Bytes := [0, 3, 0, 0]
-def sentinel : Bytes := [1, 0, 0, 0]
+/-- encapsulation header: PL_CDR_LE `00 03`, PL_CDR_BE `00 02`, options `00 00` -/
+def plHeader (e : End) : Bytes :=
+  match e with
+  | .le => [0, 3, 0, 0]
+  | .be => [0, 2, 0, 0]
+
+def sentinel (e : End) : Bytes := enc16 e 1 ++ [0, 0]
 
 /-- PidIterator (rtps_data_representation.rs:69) run to its end over the bytes that are left:
     the items it yields, and whether it ended with an `Err` item (fewer than 4 octets left) -/
@@ -469,14 +490,16 @@ structure Pl where
   tailErr : Bool
 deriving Repr
 
-def mkPl (data : Bytes) : Pl :=
+def mkPl (cfg : Cfg) (data : Bytes) : Pl :=
   let h0 := data.headD 0
   let h1 := (data.drop 1).headD 0
   let e : Option End := if h1 == 2 then some .be else if h1 == 3 then some .le else none
   match e with
   | some en =>
-    -- the iterator starts at offset 0: the encapsulation header is its first "parameter"
-    let s := scan en data.length data
+    -- before fixes/D-plist-1.patch the iterator starts at offset 0: the encapsulation header is its first
+    -- "parameter" (pid 0x0300 under LE, pid 0x0002 = PID_PARTICIPANT_LEASE_DURATION under BE);
+    -- repaired: `PidIterator::new(&self.data[4..], ..)`
+    let s := if cfg.fixHdr then scan en data.length (data.drop 4) else scan en data.length data
     { h0 := h0, h1 := h1, e := e, items := s.1, tailErr := s.2 }
   | none => { h0 := h0, h1 := h1, e := none, items := [], tailErr := false }
 
@@ -609,7 +632,7 @@ def decFields (cfg : Cfg) (pl : Pl) : List DecField → Out (List (Nat × FVal))
 /-- `from_bytes` of a record whose fields are read in the order of `S` -/
 def fromBytes (cfg : Cfg) (S : List DecField) (data : Bytes) : Out (List (Nat × FVal)) :=
   if data.length < 4 then .err .notEnoughData     -- ParameterList::new (:99)
-  else decFields cfg (mkPl data) S
+  else decFields cfg (mkPl cfg data) S
 
 /-! ### `into_bytes` -/
 
@@ -627,27 +650,31 @@ structure EncField where
   rule : Emit
 deriving DecidableEq, Repr
 
-def encEach (pid : Nat) (c : Codec) : List (List PVal) → List Param
+def encEach (e : End) (pid : Nat) (c : Codec) : List (List PVal) → List Param
   | [] => []
-  | v :: vs => (pid, encCodec c v) :: encEach pid c vs
+  | v :: vs => (pid, encCodec e c v) :: encEach e pid c vs
 
-def fieldParams (f : EncField) (v : FVal) : List Param :=
+def fieldParams (e : End) (f : EncField) (v : FVal) : List Param :=
   match f.rule, v with
-  | .always, .one vs => [(f.pid, encCodec f.codec vs)]
-  | .omitIf dflt, .one vs => if vs == dflt then [] else [(f.pid, encCodec f.codec vs)]
-  | .ifSome, .opt (some vs) => [(f.pid, encCodec f.codec vs)]
-  | .each, .many l => encEach f.pid f.codec l
+  | .always, .one vs => [(f.pid, encCodec e f.codec vs)]
+  | .omitIf dflt, .one vs => if vs == dflt then [] else [(f.pid, encCodec e f.codec vs)]
+  | .ifSome, .opt (some vs) => [(f.pid, encCodec e f.codec vs)]
+  | .each, .many l => encEach e f.pid f.codec l
   | .blobIfSome, .blob (some b) => [(f.pid, b)]
   | _, _ => []
 
-def recordParams (S : List EncField) (d : Nat → FVal) : List Param :=
+def recordParams (e : End) (S : List EncField) (d : Nat → FVal) : List Param :=
   match S with
   | [] => []
-  | f :: fs => fieldParams f (d f.pid) ++ recordParams fs d
+  | f :: fs => fieldParams e f (d f.pid) ++ recordParams e fs d
 
-/-- `into_bytes` of a record (a function from pid to field value) whose fields are written in the order of `S` -/
-def intoBytes (S : List EncField) (d : Nat → FVal) : Bytes :=
-  plHeader ++ serParams (recordParams S d) ++ sentinel
+/-- the announcement of a record (a function from pid to field value) whose fields are written in the order of `S`,
+    in the byte order `e` -/
+def intoBytesE (e : End) (S : List EncField) (d : Nat → FVal) : Bytes :=
+  plHeader e ++ serParams e (recordParams e S d) ++ sentinel e
+
+/-- `into_bytes` of dust-dds: always PL_CDR_LE -/
+def intoBytes (S : List EncField) (d : Nat → FVal) : Bytes := intoBytesE .le S d
 
 /-! ### the four schemas (transcribed from the `into_bytes` / `from_bytes` bodies and parameter_id_values.rs) -/
 
